@@ -32,7 +32,11 @@ where
     let mut next = Vec::new();
     loop {
         if todo[usize::from(c)].is_empty() {
-            c = c.checked_add(1).unwrap();
+            // If we run out of representable costs, there are no (affordable) success nodes.
+            c = match c.checked_add(1) {
+                Some(c) => c,
+                None => return Vec::new(),
+            };
             if usize::from(c) == todo.len() {
                 return Vec::new();
             }
